@@ -981,6 +981,12 @@ assign_float_mpq(T& to, const mpq_class& from, Rounding_Dir dir) {
   }
   else {
     --exponent;
+    if (exponent < Float<T>::Binary::EXPONENT_MIN) {
+      // Denormalized: needed_bits was computed for the exponent before
+      // the decrement, so that the mantissa has one bit too many.
+      inexact = (inexact || mpz_odd_p(mantissa));
+      mpz_tdiv_q_2exp(mantissa, mantissa, 1);
+    }
   }
   if (exponent > Float<T>::Binary::EXPONENT_MAX) {
     mpz_clear(mantissa);
